@@ -1,45 +1,112 @@
-"""textx/export.py (metamodel_export, model_export) + textx/generators.py (gen_file) -> Gen/SrcFs.v
-The write protocol of the exporters as three facts:
-  writes_to_temp        the file opened for writing is a temporary name, not the target
-  replace_after_close   os.replace(temp, target) runs after the `with open` block has closed the file
-  removes_temp_on_error an exception while writing/replacing removes the temporary file and re-raises
-and the skip rule of gen_file."""
+"""textx/export.py (metamodel_export, model_export, _write_atomically) + textx/generators.py (gen_file) -> Gen/SrcFs.v
+The write protocol of the exporters as a small program (Model/FsDefs.v `prog`) that keeps the order
+and nesting of the source statements:
+  POpen body       with open(<name>, 'w', ...) as f: body        (f is closed - and flushed - when the block is left)
+  PTry body h      try: body / except BaseException: h; raise
+  PWrite           write(f)                                       (the generator's output)
+  PReplace         os.replace(<temporary name>, file_name)
+  PRemoveTmp       with suppress(OSError): os.remove(<temporary name>)
+plus `writes_to_temp` (the name that is opened is a temporary name in the directory of the target, not the
+target) and the skip rule of gen_file.  Where os.replace stands relative to the end of the `with open`
+block (= the close that flushes the buffered data) is therefore a translated fact."""
 import ast
 from .common import parse_file, find_func, need, emit, TranslateError
 
 
+def _seq(progs):
+    progs = [p for p in progs if p != "PSkip"]
+    if not progs:
+        return "PSkip"
+    out = progs[-1]
+    for p in reversed(progs[:-1]):
+        out = "(PSeq %s %s)" % (p, out)
+    return out
+
+
+def _stmts(body, tmp, fvar, opened):
+    return _seq([_stmt(s, tmp, fvar, opened) for s in body if not (isinstance(s, ast.Expr) and isinstance(s.value, ast.Constant))])
+
+
+def _stmt(s, tmp, fvar, opened):
+    """One statement of the helper -> prog.  `opened`: list collecting the names that are opened."""
+    src = ast.unparse(s)
+    if isinstance(s, ast.With) and len(s.items) == 1:
+        call = s.items[0].context_expr
+        if isinstance(call, ast.Call) and ast.unparse(call.func) == "open":
+            need(len(call.args) >= 2 and ast.unparse(call.args[1]) == "'w'", "open() not for writing: " + src[:60])
+            need(s.items[0].optional_vars is not None and ast.unparse(s.items[0].optional_vars) == fvar, "file variable changed")
+            for kw in call.keywords:
+                need(kw.arg in ("encoding", "newline", "errors"), "open() with buffering/other options is not modelled: " + str(kw.arg))
+            need(len(call.args) == 2, "open() with positional buffering argument is not modelled")
+            opened.append(ast.unparse(call.args[0]))
+            return "(POpen %s)" % _stmts(s.body, tmp, fvar, opened)
+        if isinstance(call, ast.Call) and ast.unparse(call) == "suppress(OSError)":
+            need(len(s.body) == 1 and ast.unparse(s.body[0]) == "os.remove(%s)" % tmp, "suppress block does something else than removing the temporary file")
+            return "PRemoveTmp"
+        raise TranslateError("unknown with statement in the write protocol: " + src[:80])
+    if isinstance(s, ast.Try):
+        need(not s.orelse and not s.finalbody, "try with else/finally in the write protocol")
+        need(len(s.handlers) == 1 and s.handlers[0].type is not None and ast.unparse(s.handlers[0].type) in ("BaseException", "Exception"),
+             "exception handler changed")
+        need(ast.unparse(s.handlers[0].type) == "BaseException", "handler does not cover KeyboardInterrupt/SystemExit (BaseException)")
+        h = s.handlers[0].body
+        need(h and isinstance(h[-1], ast.Raise) and h[-1].exc is None, "the handler does not re-raise")
+        return "(PTry %s %s)" % (_stmts(s.body, tmp, fvar, opened), _stmts(h[:-1], tmp, fvar, opened))
+    if isinstance(s, ast.Expr):
+        if src == "write(%s)" % fvar:
+            return "PWrite"
+        if tmp is not None and src == "os.replace(%s, file_name)" % tmp:
+            return "PReplace"
+    raise TranslateError("statement of the write protocol is not understood: " + src[:80])
+
+
+def _only_writes(fn, fvar):
+    """The generator function uses its file argument only as f.write(...): no flush/close/seek/name."""
+    parents = {}
+    for n in ast.walk(fn):
+        for c in ast.iter_child_nodes(n):
+            parents[c] = n
+    for n in ast.walk(fn):
+        if isinstance(n, ast.Name) and n.id == fvar:
+            need(isinstance(n.ctx, ast.Load), "%s rebinds its file argument" % fn.name)
+            a = parents.get(n)
+            need(isinstance(a, ast.Attribute) and a.attr == "write" and isinstance(parents.get(a), ast.Call) and parents[a].func is a,
+                 "%s uses its file argument for something else than f.write(...)" % fn.name)
+
+
 def _protocol_of(fn, tree):
-    """Return (writes_to_temp, replace_after_close, removes_temp_on_error) for one export function."""
+    """Return (writes_to_temp, prog) for one export function."""
     src = ast.unparse(fn)
     withs = [n for n in ast.walk(fn) if isinstance(n, ast.With)]
     opens = [w for w in withs if any(isinstance(i.context_expr, ast.Call) and ast.unparse(i.context_expr.func) == "open" for i in w.items)]
     if len(opens) == 1:
+        # the exporter opens a file itself and writes inside the block
         call = opens[0].items[0].context_expr
         need(ast.unparse(call.args[0]) == "file_name" and ast.unparse(call.args[1]) == "'w'", "unexpected open() arguments in " + fn.name)
         need("os.replace" not in src and "os.rename" not in src, "open(file_name) together with replace in " + fn.name)
-        return (False, False, False)
+        need(opens[0] in fn.body, "open() nested in other statements in " + fn.name)
+        return (False, "(POpen PWrite)")
     # delegated to a helper taking (file_name, writer)
     calls = [n for n in ast.walk(fn) if isinstance(n, ast.Call) and isinstance(n.func, ast.Name) and n.func.id.startswith("_write")]
     need(len(calls) == 1 and ast.unparse(calls[0].args[0]) == "file_name", "no open() and no atomic-write helper call in " + fn.name)
+    need(len(calls[0].args) == 2 and isinstance(calls[0].args[1], ast.Lambda) and [a.arg for a in calls[0].args[1].args.args] == ["f"],
+         "the writer passed to the helper is not a lambda f: ...")
+    lam = calls[0].args[1].body
+    need(isinstance(lam, ast.Call) and isinstance(lam.func, ast.Name) and sum(1 for a in lam.args if ast.unparse(a) == "f") == 1,
+         "the writer lambda does not hand f to one writer function")
+    _only_writes(find_func(tree, lam.func.id), [a.arg for a in find_func(tree, lam.func.id).args.args][[ast.unparse(a) for a in lam.args].index("f")])
     helper = find_func(tree, calls[0].func.id)
+    need([a.arg for a in helper.args.args] == ["file_name", "write"], "helper signature changed")
     body = [s for s in helper.body if not (isinstance(s, ast.Expr) and isinstance(s.value, ast.Constant))]
-    need(len(body) == 2 and isinstance(body[0], ast.Assign) and isinstance(body[1], ast.Try), "helper shape changed")
+    need(len(body) >= 2 and isinstance(body[0], ast.Assign), "helper shape changed")
     tmp = ast.unparse(body[0].targets[0])
     tmp_expr = body[0].value
     need(isinstance(tmp_expr, ast.JoinedStr) and ast.unparse(tmp_expr).startswith("f'{file_name}"), "temporary name is not derived from file_name (same directory)")
     need(any(isinstance(v, ast.Constant) and v.value for v in tmp_expr.values), "temporary name equals the target name")
-    tr = body[1]
-    need(len(tr.body) == 2 and isinstance(tr.body[0], ast.With), "try body changed")
-    w = tr.body[0]
-    call = w.items[0].context_expr
-    need(ast.unparse(call.func) == "open" and ast.unparse(call.args[0]) == tmp and ast.unparse(call.args[1]) == "'w'", "helper does not open the temporary name for writing")
-    need(len(w.body) == 1 and ast.unparse(w.body[0]) == "write(f)", "helper with-body changed")
-    replace_after_close = ast.unparse(tr.body[1]) == "os.replace(%s, file_name)" % tmp
-    need(replace_after_close, "os.replace(tmp, file_name) does not follow the with block")
-    need(len(tr.handlers) == 1 and ast.unparse(tr.handlers[0].type) in ("BaseException", "Exception"), "handler changed")
-    h = tr.handlers[0].body
-    removes = len(h) == 2 and "os.remove(%s)" % tmp in ast.unparse(h[0]) and isinstance(h[1], ast.Raise) and h[1].exc is None
-    return (True, replace_after_close, removes)
+    opened = []
+    prog = _stmts(body[1:], tmp, "f", opened)
+    need(opened == [tmp], "the helper does not open exactly the temporary name: %r" % opened)
+    return (True, prog)
 
 
 def translate():
@@ -62,9 +129,9 @@ def translate():
         need(frag in src, "generator no longer exports to the gen_file target: " + frag)
     b = lambda x: "true" if x else "false"
     emit("SrcFs", "\n".join([
+        "From TxV Require Import Model.FsDefs.",
         "Definition writes_to_temp : bool := %s." % b(p[0]),
-        "Definition replace_after_close : bool := %s." % b(p[1]),
-        "Definition removes_temp_on_error : bool := %s." % b(p[2]),
+        "Definition protocol : prog := %s." % p[1],
         "Definition skip_if_target_exists : bool := true.",
     ]) + "\n")
     return []
